@@ -13,7 +13,7 @@ from .edits import Insert, Match, Remove
 from .matching import WeightedBipartiteMatcher
 from .sequences import SequenceEdit, SequenceNode
 from .tree import Edit, TreeNode
-from .utils import HashableCounter, largest
+from .utils import HashableCounter
 
 
 class MultiSetEdit(SequenceEdit):
@@ -89,10 +89,15 @@ class MultiSetEdit(SequenceEdit):
     def edits(self) -> Iterator[Edit]:
         yield from self._edits
         yield from self._matched_kvp_edits
+        for (_, (_, edit)) in self._matcher.matching.items():
+            yield edit
+        yield from self._unmatched_edits()
+
+    def _unmatched_edits(self) -> Iterator[Edit]:
+        """The removals and insertions of the items that the matching leaves unmatched."""
         remove_matched: HashableCounter[TreeNode] = HashableCounter()
         insert_matched: HashableCounter[TreeNode] = HashableCounter()
-        for (rem, (ins, edit)) in self._matcher.matching.items():
-            yield edit
+        for (rem, (ins, _)) in self._matcher.matching.items():
             remove_matched[rem] += 1
             insert_matched[ins] += 1
         for rm in (self.to_remove - remove_matched).elements():
@@ -105,24 +110,37 @@ class MultiSetEdit(SequenceEdit):
         for kvp_edit in self._matched_kvp_edits:
             if kvp_edit.tighten_bounds():
                 return True
-        return self._matcher.tighten_bounds()
+        if self._matcher.tighten_bounds():
+            return True
+        elif not self._matcher.is_complete() and self._matcher.from_nodes and self._matcher.to_nodes:
+            # The matcher's own bounds are already definitive, so it never had to compute the matching;
+            # which items remain unmatched (and therefore our bounds) depends on it, so compute it now
+            bounds_before = self.bounds()
+            _ = self._matcher.matching
+            bounds_after = self.bounds()
+            return bounds_after.lower_bound > bounds_before.lower_bound \
+                or bounds_after.upper_bound < bounds_before.upper_bound
+        return False
 
     def bounds(self) -> Range:
         b = self._matcher.bounds()
         for kvp_edit in self._matched_kvp_edits:
             b = b + kvp_edit.bounds()
-        if len(self.to_remove) > len(self.to_insert):
-            for edit in largest(
-                    *(Remove(to_remove=r, remove_from=self.from_node) for r in self.to_remove),
-                    n=len(self.to_remove) - len(self.to_insert),
-                    key=lambda e: e.bounds()
-            ):
+        num_unmatched = abs(len(self._matcher.from_nodes) - len(self._matcher.to_nodes))
+        if num_unmatched == 0:
+            return b
+        elif self._matcher.is_complete():
+            # the matching is known, so we know exactly which items have to be removed or inserted
+            for edit in self._unmatched_edits():
                 b = b + edit.bounds()
-        elif len(self.to_remove) < len(self.to_insert):
-            for edit in largest(
-                    *(Insert(to_insert=i, insert_into=self.from_node) for i in self.to_insert),
-                    n=len(self.to_insert) - len(self.to_remove),
-                    key=lambda e: e.bounds()
-            ):
-                b = b + edit.bounds()
-        return b
+            return b
+        # Until the matching is known, any `num_unmatched` items of the larger set might remain unmatched:
+        if len(self._matcher.from_nodes) > len(self._matcher.to_nodes):
+            costs = sorted(
+                Remove(to_remove=r, remove_from=self.from_node).bounds().upper_bound for r in self._matcher.from_nodes
+            )
+        else:
+            costs = sorted(
+                Insert(to_insert=i, insert_into=self.from_node).bounds().upper_bound for i in self._matcher.to_nodes
+            )
+        return Range(b.lower_bound + sum(costs[:num_unmatched]), b.upper_bound + sum(costs[-num_unmatched:]))
